@@ -487,6 +487,7 @@ func checkC11(c *Ctx) {
 	}
 	c.Extra["negative_control"] = "a trace in which an append changed the length of another variable was rejected by Trace_GoSlice as expected"
 	c.Extra["traces"] = len(traces)
+	c11RangeFamily(c)
 }
 
 func toMapEvents(evs []map[string]any) []MapEvent {
@@ -495,4 +496,103 @@ func toMapEvents(evs []map[string]any) []MapEvent {
 		out[i] = MapEvent(e)
 	}
 	return out
+}
+
+// c11RangePrograms: range loops whose body changes the slice being ranged over (a later element written directly, through
+// an aliasing sub-slice, by copy, by an in-place append through a shorter view; the variable reassigned or grown): Go
+// evaluates the range operand once and reads each element when its iteration starts. Meaning from MiniGo.tla, calibrated
+// against the Go toolchain.
+func c11RangePrograms(r *rand.Rand, n int) []*Prog {
+	ts := SliceOf(TInt)
+	idx := func(x *E, i *E) *E { return &E{K: "index", Ty: TInt, X: x, I: i} }
+	sl := func(x *E, lo, hi *E) *E { return &E{K: "slice", Ty: ts, X: x, Lo: lo, Hi: hi} }
+	rng := func(x *E, k, e string, body ...*S) *S { return &S{K: "range", X: x, KName: k, VName: e, Body: body} }
+	iff := func(c *E, then ...*S) *S { return &S{K: "if", Cond: c, Then: then} }
+	add := func(name string, e *E) *S { return &S{K: "opassign", Lhs: []*E{v(name, TInt)}, Op: "+", E: e} }
+	slit := func(xs ...int64) *E {
+		e := &E{K: "slicelit", Ty: ts}
+		for _, x := range xs {
+			e.Args = append(e.Args, lit(TInt, x))
+		}
+		return e
+	}
+	dump := func(tag string, s string) []*S {
+		return []*S{pr(sS(tag), lenOf(v(s, ts))), rng(v(s, ts), "_", "e", pr(sS(" "), v("e", TInt)))}
+	}
+	var progs []*Prog
+	for id := 0; id < n; id++ {
+		m := 3 + r.Intn(4)
+		vals := make([]int64, m)
+		for i := range vals {
+			vals[i] = int64(1 + r.Intn(9))
+		}
+		s, i, e := v("s", ts), v("i", TInt), v("e", TInt)
+		body := []*S{dcl("s", slit(vals...)), dcl("acc", lit(TInt, 0))}
+		blocks := [][]*S{
+			{ // a later element written directly
+				rng(s, "i", "e", iff(bin("<", TBool, bin("+", TInt, i, lit(TInt, 1)), lenOf(s)), &S{K: "opassign", Lhs: []*E{idx(s, bin("+", TInt, i, lit(TInt, 1)))}, Op: "+", E: e}))},
+			{ // ... through an aliasing sub-slice
+				dcl("t", sl(s, lit(TInt, 1), nil)),
+				rng(s, "i", "e", iff(bin("<", TBool, i, lenOf(v("t", ts))), asg(idx(v("t", ts), i), bin("*", TInt, e, lit(TInt, 2)))), add("acc", e))},
+			{ // ... by copy
+				rng(s, "i", "e", iff(bin("==", TBool, i, lit(TInt, 0)), &S{K: "copy", Dst: sl(s, lit(TInt, 1), nil), E: slit(int64(20+r.Intn(9)), int64(30+r.Intn(9)))}), add("acc", e))},
+			{ // ... by an append that writes in place through a shorter view
+				dcl("u", sl(s, nil, lit(TInt, 1))),
+				rng(s, "i", "e", iff(bin("==", TBool, i, lit(TInt, 0)), asg(v("u", ts), &E{K: "append", Ty: ts, X: v("u", ts), Args: []*E{lit(TInt, int64(40+r.Intn(9)))}})), add("acc", e))},
+			{ // the variable reassigned / grown inside the loop: the operand was evaluated once
+				dcl("w", sl(s, nil, nil)),
+				rng(v("w", ts), "_", "e", asg(v("w", ts), &E{K: "append", Ty: ts, X: v("w", ts), Args: []*E{e}}), add("acc", lit(TInt, 1))),
+				pr(sS("grown"), lenOf(v("w", ts))),
+				rng(v("w", ts), "i", "e", iff(bin("==", TBool, i, lit(TInt, 0)), asg(v("w", ts), &E{K: "zero", Ty: ts})), add("acc", e)),
+				pr(sS("niled"), lenOf(v("w", ts)))},
+			{ // an earlier or the current element written: the value of this round was already taken
+				rng(s, "i", "e", asg(idx(s, i), bin("+", TInt, e, lit(TInt, 100))), iff(bin(">", TBool, i, lit(TInt, 0)), asg(idx(s, bin("-", TInt, i, lit(TInt, 1))), e)), add("acc", e))},
+			{ // index-only loop reading the live slice
+				rng(s, "i", "", add("acc", idx(s, i)), iff(bin("<", TBool, bin("+", TInt, i, lit(TInt, 1)), lenOf(s)), asg(idx(s, bin("+", TInt, i, lit(TInt, 1))), lit(TInt, int64(r.Intn(9))))))},
+		}
+		// elements take the slice's element type whatever form stored them: a constant stored through a literal index, a
+		// variable index, an alias, append or copy wraps like the element type when it is operated on afterwards
+		{
+			et := []*Ty{TUint8, TInt8, TUint32}[r.Intn(3)]
+			tb := SliceOf(et)
+			big := map[string]int64{"uint8": 200, "int8": 100, "uint32": 4000000000}[et.K]
+			step := map[string]int64{"uint8": 100, "int8": 100, "uint32": 500000000}[et.K]
+			bx := func(name string, i *E) *E { return &E{K: "index", Ty: et, X: v(name, tb), I: i} }
+			bump := func(name string, i *E) *S { return &S{K: "opassign", Lhs: []*E{bx(name, i)}, Op: "+", E: lit(et, step)} }
+			tblocks := [][]*S{
+				{dcl("b", &E{K: "make", Ty: tb, X: lit(TInt, 3)}), asg(bx("b", lit(TInt, 1)), lit(et, big)), bump("b", lit(TInt, 1)), pr(sS("lit-index"), bx("b", lit(TInt, 1)))},
+				{dcl("b2", &E{K: "make", Ty: tb, X: lit(TInt, 3)}), dcl("j", lit(TInt, 2)), asg(bx("b2", v("j", TInt)), lit(et, big)), bump("b2", v("j", TInt)), pr(sS("var-index"), bx("b2", v("j", TInt)))},
+				{dcl("b3", &E{K: "make", Ty: tb, X: lit(TInt, 3)}), dcl("al", &E{K: "slice", Ty: tb, X: v("b3", tb), Lo: lit(TInt, 1)}), asg(bx("al", lit(TInt, 0)), lit(et, big)), bump("b3", lit(TInt, 1)), pr(sS("alias"), bx("b3", lit(TInt, 1)), bx("al", lit(TInt, 0)))},
+				{&S{K: "declzero", Names: []string{"b4"}, DeclTy: tb}, asg(v("b4", tb), &E{K: "append", Ty: tb, X: v("b4", tb), Args: []*E{lit(et, big), lit(et, 1)}}), bump("b4", lit(TInt, 0)), pr(sS("append"), bx("b4", lit(TInt, 0)))},
+				{dcl("b5", &E{K: "slicelit", Ty: tb, Args: []*E{lit(et, 1), lit(et, big)}}), rng(v("b5", tb), "k", "x", dcl("y", v("x", et)), &S{K: "opassign", Lhs: []*E{v("y", et)}, Op: "+", E: lit(et, step)}, pr(sS("range-value"), v("k", TInt), v("y", et)))},
+			}
+			for _, k := range r.Perm(len(tblocks))[:2+r.Intn(3)] {
+				body = append(body, tblocks[k]...)
+			}
+		}
+		for _, k := range r.Perm(len(blocks))[:2+r.Intn(3)] {
+			body = append(body, blocks[k]...)
+			body = append(body, dump("s", "s")...)
+			body = append(body, pr(sS("acc"), v("acc", TInt)))
+		}
+		p := &Prog{ID: fmt.Sprintf("c11/range-%d", id), Pkg: "main", Main: "Main"}
+		p.Funcs = append(p.Funcs, &Func{Name: "Main", Body: body})
+		progs = append(progs, p)
+	}
+	return progs
+}
+
+func c11RangeFamily(c *Ctx) {
+	r := rand.New(rand.NewSource(c.Seed + 11))
+	progs := c11RangePrograms(r, c.pick(60, 1500))
+	b := runMiniGoSpec(c, progs, 0, "c11range")
+	for _, p := range progs {
+		if len(b.Behs[p.ID]) != 1 {
+			fatalf("program %s has %d behaviours in the specification (want 1)", p.ID, len(b.Behs[p.ID]))
+		}
+	}
+	calibrateGo(c, b, "c11range")
+	compareBehaviours(c, b, true, "range-over-slice")
+	compareBehaviours(c, b, false, "range-over-slice")
+	c.Extra["range_mutation_programs"] = len(progs)
 }
